@@ -265,7 +265,7 @@ fn run_one(tier: Tier, i: u64, seed: u64, c: &mut Counters, known: &std::collect
                     let rr = run_concurrent(scn.clone(), spec.clone(), 2_000_000);
                     c.inc("executions");
                     c.inc("noise_runs");
-                    c.add("decisions", rr.sched.decisions);
+                    c.add("decisions", rr.sched.multi_decisions);
                     match rr.outcome {
                         Outcome::Done(co) => {
                             // the program's own results must be those of the composed run alone
@@ -313,6 +313,11 @@ fn run_one(tier: Tier, i: u64, seed: u64, c: &mut Counters, known: &std::collect
         _ => c.inc("program_blocked"),
     }
     out
+}
+
+pub fn digest(n: u64) {
+    let known = Default::default();
+    digest_runs("C08", n, |i, seed, c| run_one(Tier::Quick, i, seed, c, &known));
 }
 
 pub fn check(tier: Tier) -> i32 {
